@@ -352,7 +352,7 @@ func Corpus() []*Hist {
 func Gen(seed uint64, tier string) []*Hist {
 	r := vproto.NewRng(seed)
 	hs := Corpus()
-	n := 150
+	n := 300
 	if tier == "thorough" {
 		n = 2500
 	}
